@@ -1,9 +1,9 @@
 package main
 
 import (
-	"go/constant"
 	"fmt"
 	"go/ast"
+	"go/constant"
 	"go/token"
 	"go/types"
 	"sort"
@@ -209,7 +209,22 @@ func c07R1(p *Prog, r *Report) {
 					continue
 				}
 				// error return must be under delegateTo.ReturnError true ∧ current.ReturnError false
-				if dominatedByEdge(b, true, func(c ssa.Value) bool { return loadsField(c, "ReturnError") }) && dominatedByEdge(b, false, func(c ssa.Value) bool { return loadsField(c, "ReturnError") }) {
+				pos, neg := false, false
+				for _, f := range factsAt(b) {
+					if nf, isNeg := f.(negFact); isNeg {
+						if loadsField(nf.Value, "ReturnError") {
+							neg = true
+						}
+						continue
+					}
+					if loadsField(f, "ReturnError") {
+						pos = true
+					}
+					if u, isU := f.(*ssa.UnOp); isU && u.Op == token.NOT && loadsField(u.X, "ReturnError") {
+						neg = true
+					}
+				}
+				if pos && neg {
 					ok = true
 				}
 			}
@@ -431,6 +446,42 @@ func c07R3(p *Prog, r *Report) {
 						ok = true
 					}
 				}
+				// (c) acc := make([]jen.Code, 0, …) / []jen.Code{} and the first append to it — a top-level statement before
+				//     any loop — appends exactly the error statement
+				if as.Tok == token.DEFINE && !ok {
+					emptyInit := false
+					switch x := ast.Unparen(as.Rhs[0]).(type) {
+					case *ast.CompositeLit:
+						emptyInit = len(x.Elts) == 0
+					case *ast.CallExpr:
+						if b, isB := calleeObj(info, x).(*types.Builtin); isB && b.Name() == "make" {
+							emptyInit = true
+						}
+					}
+					if emptyInit {
+						for _, st := range fi.Decl.Body.List {
+							if st.Pos() <= as.Pos() {
+								continue
+							}
+							a2, isA2 := st.(*ast.AssignStmt)
+							if !isA2 {
+								if _, isLoop := st.(*ast.RangeStmt); isLoop {
+									break
+								}
+								if _, isLoop := st.(*ast.ForStmt); isLoop {
+									break
+								}
+								continue
+							}
+							if len(a2.Lhs) == 1 && isAcc(a2.Lhs[0]) {
+								if c2, isC2 := ast.Unparen(a2.Rhs[0]).(*ast.CallExpr); isC2 && len(c2.Args) == 2 && isAcc(c2.Args[0]) && isParamIdent(info, fi, c2.Args[1], 1) {
+									ok = true
+								}
+								break
+							}
+						}
+					}
+				}
 				// (b) args := []jen.Code{errStmt} followed only by appends at the end
 				if cl, isCl := ast.Unparen(as.Rhs[0]).(*ast.CompositeLit); isCl && as.Tok == token.DEFINE && len(cl.Elts) >= 1 && isParamIdent(info, fi, cl.Elts[0], 1) {
 					ok = true
@@ -465,31 +516,51 @@ func c07R3(p *Prog, r *Report) {
 	} else {
 		r.Unresolved("builder.(ErrorPath).WrapErrorsUsing")
 	}
-	if fi := p.Func("generator.(*generator).wrap"); fi != nil {
-		info := fi.Pkg.TypesInfo
-		okDef, okArms := false, 0
-		ast.Inspect(fi.Decl, func(n ast.Node) bool {
-			cc, isCC := n.(*ast.CaseClause)
-			if !isCC || len(cc.Body) != 1 {
-				return true
+	if fi, sf := needFunc(p, r, "generator.(*generator).wrap"); fi != nil {
+		// SSA: every return is the error statement itself or a call that receives it as last argument; the mode is
+		// read from the method context (ctx.Conf), not from the converter
+		var errPrm, ctxPrm *ssa.Parameter
+		for _, prm := range sf.Params {
+			if prm.Type().String() == "*"+jenPath+".Statement" {
+				errPrm = prm
 			}
-			ret, isRet := cc.Body[0].(*ast.ReturnStmt)
-			if !isRet || len(ret.Results) != 1 {
-				return true
+			if isNamed(derefType(prm.Type()), modPath+"/builder", "MethodContext") {
+				ctxPrm = prm
 			}
-			if len(cc.List) == 0 {
-				okDef = isParamIdent(info, fi, ret.Results[0], 2)
-				return true
+		}
+		okDef, okArms, bad := false, 0, ""
+		allInstrs(sf, false, func(in ssa.Instruction) {
+			switch x := in.(type) {
+			case *ssa.Return:
+				if len(x.Results) != 1 {
+					return
+				}
+				if x.Results[0] == ssa.Value(errPrm) {
+					okDef = true
+					return
+				}
+				if c, ok := x.Results[0].(*ssa.Call); ok && len(c.Call.Args) > 0 && c.Call.Args[len(c.Call.Args)-1] == ssa.Value(errPrm) {
+					okArms++
+					return
+				}
+				bad = "a return of wrap() neither is the error statement nor passes it on"
+			case *ssa.UnOp:
+				if x.Op == token.MUL {
+					if fa, ok := x.X.(*ssa.FieldAddr); ok && (fieldName(fa) == "WrapErrors" || fieldName(fa) == "WrapErrorsUsing") {
+						if rootParam(fa.X) != ctxPrm {
+							bad = "the wrapping mode is read from " + fa.X.String() + " instead of the method context: a method-level wrapErrors / wrapErrorsUsing setting would be ignored"
+						}
+					}
+				}
 			}
-			if call, isC := ast.Unparen(ret.Results[0]).(*ast.CallExpr); isC && len(call.Args) >= 1 && isParamIdent(info, fi, call.Args[len(call.Args)-1], 2) {
-				okArms++
-			}
-			return true
 		})
-		if okDef && okArms == 2 {
-			r.OK("generator.(*generator).wrap", p.PosStr(fi.Decl.Pos()), "both wrapping modes receive the error statement; default returns it unchanged")
+		if okDef && okArms >= 2 && bad == "" && errPrm != nil && ctxPrm != nil {
+			r.OK("generator.(*generator).wrap", p.PosStr(fi.Decl.Pos()), "both wrapping modes receive the error statement; default returns it unchanged; mode read from ctx.Conf")
 		} else {
-			r.Bad("generator.(*generator).wrap", p.PosStr(fi.Decl.Pos()), "wrap() does not pass the error through in every mode")
+			if bad == "" {
+				bad = "wrap() does not pass the error through in every mode"
+			}
+			r.Bad("generator.(*generator).wrap", p.PosStr(fi.Decl.Pos()), bad)
 		}
 	} else {
 		r.Unresolved("generator.(*generator).wrap")
@@ -497,6 +568,44 @@ func c07R3(p *Prog, r *Report) {
 }
 
 // litSuffix folds "a"+x+"b" to its constant suffix.
+// identDenotes: id (an identifier in function in) denotes obj of function anchor — directly, or because in is a
+// private helper of anchor, id is one of its parameters and every call of the helper in anchor passes obj for it.
+func identDenotes(p *Prog, in *FuncInfo, id *ast.Ident, anchor *FuncInfo, obj types.Object) bool {
+	o := in.Pkg.TypesInfo.ObjectOf(id)
+	if o == nil || obj == nil {
+		return false
+	}
+	if in == anchor {
+		return o == obj
+	}
+	sig := in.Obj.Type().(*types.Signature)
+	idx := -1
+	for i := 0; i < sig.Params().Len(); i++ {
+		if sig.Params().At(i) == o {
+			idx = i
+		}
+	}
+	if idx < 0 {
+		return false
+	}
+	n := 0
+	for _, cs := range p.Calls() {
+		f, ok := cs.Callee.(*types.Func)
+		if !ok || f.Origin() != in.Obj.Origin() {
+			continue
+		}
+		n++
+		if cs.Encl != anchor || idx >= len(cs.Call.Args) {
+			return false
+		}
+		a, ok := ast.Unparen(cs.Call.Args[idx]).(*ast.Ident)
+		if !ok || anchor.Pkg.TypesInfo.ObjectOf(a) != obj {
+			return false
+		}
+	}
+	return n > 0
+}
+
 func litSuffix(info *types.Info, e ast.Expr) string {
 	if s, ok := constString(info, e); ok {
 		return s
@@ -670,10 +779,13 @@ func c07R5(p *Prog, r *Report) {
 		// range header declares the same key
 		okRange := false
 		for _, c := range p.Chains() {
-			if c.Encl == fi && c.Has("Range") != nil && c.Root == nil && c.Links[0].Name == "List" {
+			if c.Encl == nil || !p.inRegion("builder.(*Map).Assign", c.Encl) {
+				continue
+			}
+			if c.Has("Range") != nil && c.Root == nil && c.Links[0].Name == "List" {
 				ids := idArgsOf(c, c.Links[0].Args[0])
 				if len(ids) == 1 {
-					if id, ok := ast.Unparen(ids[0]).(*ast.Ident); ok && info.ObjectOf(id) == keyObj {
+					if id, ok := ast.Unparen(ids[0]).(*ast.Ident); ok && identDenotes(p, c.Encl, id, fi, keyObj) {
 						okRange = true
 					}
 				}
@@ -703,25 +815,29 @@ func c07R5(p *Prog, r *Report) {
 		fi := p.Func("builder.(ErrorPath).WrapErrorsUsing")
 		covered := map[string]string{}
 		if fi != nil {
-			info := fi.Pkg.TypesInfo
-			ast.Inspect(fi.Decl, func(n ast.Node) bool {
-				cc, ok := n.(*ast.CaseClause)
-				if !ok || len(cc.List) != 1 {
-					return true
-				}
-				nt := namedOf(info.TypeOf(cc.List[0]))
-				if nt == nil {
-					return true
-				}
-				for _, c := range p.Chains() {
-					if c.Encl == fi && c.Outer.Pos() >= cc.Pos() && c.Outer.End() <= cc.End() && c.Has("Qual") != nil {
-						if s, ok := constString(info, c.Has("Qual").Args[1]); ok {
-							covered[nt.Obj().Name()] = s
+			// the arms may live in WrapErrorsUsing or in a private helper it delegates each element to
+			for _, rf := range p.Region("builder.(ErrorPath).WrapErrorsUsing") {
+				rf := rf
+				info := rf.Pkg.TypesInfo
+				ast.Inspect(rf.Decl, func(n ast.Node) bool {
+					cc, ok := n.(*ast.CaseClause)
+					if !ok || len(cc.List) != 1 {
+						return true
+					}
+					nt := namedOf(info.TypeOf(cc.List[0]))
+					if nt == nil {
+						return true
+					}
+					for _, c := range p.Chains() {
+						if c.Encl == rf && c.Outer.Pos() >= cc.Pos() && c.Outer.End() <= cc.End() && c.Has("Qual") != nil {
+							if s, ok := constString(info, c.Has("Qual").Args[1]); ok {
+								covered[nt.Obj().Name()] = s
+							}
 						}
 					}
-				}
-				return true
-			})
+					return true
+				})
+			}
 		}
 		want := map[string]string{"errElmField": "Field", "errElmIndex": "Index", "errElmKey": "Key"}
 		for _, im := range impls {
